@@ -25,6 +25,9 @@
 #include "EbPictureDecisionProcess.h"
 #include "firstpass.h"
 #include "EbPictureAnalysisProcess.h"
+#ifdef SVT_AV1_VERIF
+#include "EbVerifHooks.h"
+#endif
 
 #define FC_SKIP_TX_SR_TH025 125 // Fast cost skip tx search threshold.
 #define FC_SKIP_TX_SR_TH010 110 // Fast cost skip tx search threshold.
@@ -4415,6 +4418,13 @@ void *mode_decision_kernel(void *input_ptr) {
                                 segments_ptr->segment_band_count;
 
             // Reset Coding Loop State
+#ifdef SVT_AV1_VERIF
+            SVT_VERIF_TRACE(0,
+                            pcs_ptr->picture_number,
+                            ((uint64_t)context_ptr->tile_group_index << 16) | segment_index,
+                            ((uint64_t)tile_group_width_in_sb << 16) | segments_ptr->sb_row_count,
+                            ((uint64_t)segments_ptr->segment_band_count << 16) | segments_ptr->segment_row_count);
+#endif
             reset_mode_decision(scs_ptr,
                                 context_ptr->md_context,
                                 pcs_ptr,
@@ -4449,6 +4459,13 @@ void *mode_decision_kernel(void *input_ptr) {
                     sb_index = context_ptr->md_context->sb_index =(uint16_t)((y_sb_index + tile_group_y_sb_start) * pic_width_in_sb +
                         x_sb_index + tile_group_x_sb_start);
                     sb_ptr = context_ptr->md_context->sb_ptr = pcs_ptr->sb_ptr_array[sb_index];
+#ifdef SVT_AV1_VERIF
+                    SVT_VERIF_TRACE(1,
+                                    pcs_ptr->picture_number,
+                                    ((uint64_t)context_ptr->tile_group_index << 16) | segment_index,
+                                    ((uint64_t)x_sb_index << 16) | y_sb_index,
+                                    sb_index);
+#endif
                     sb_origin_x = (x_sb_index + tile_group_x_sb_start) << sb_size_log2;
                     sb_origin_y = (y_sb_index + tile_group_y_sb_start) << sb_size_log2;
                     //printf("[%ld]:ED sb index %d, (%d, %d), encoded total sb count %d, ctx coded sb count %d\n",
@@ -4673,6 +4690,13 @@ void *mode_decision_kernel(void *input_ptr) {
                         scs_ptr, pcs_ptr, sb_ptr, sb_index, sb_origin_x, sb_origin_y, context_ptr);
 #endif
 
+#ifdef SVT_AV1_VERIF
+                    SVT_VERIF_TRACE(2,
+                                    pcs_ptr->picture_number,
+                                    ((uint64_t)context_ptr->tile_group_index << 16) | segment_index,
+                                    ((uint64_t)x_sb_index << 16) | y_sb_index,
+                                    sb_index);
+#endif
                     context_ptr->coded_sb_count++;
                     if (pcs_ptr->parent_pcs_ptr->reference_picture_wrapper_ptr != NULL)
                         ((EbReferenceObject *)
